@@ -57,6 +57,10 @@ class Ctx:
         self.rule = ''
         self.extra = {}
         self.known = [k for k in load_known() if k.get('property') == pid and k.get('status', 'known') == 'known']
+        import glob
+        for old in glob.glob(os.path.join(VERIF, 'replays', '%s-seed%d-%s-*.json' % (pid, seed, tier))):
+            try: os.remove(old)
+            except OSError: pass
 
     def log(self, *a):
         print('[%s %6.1fs]' % (self.pid, time.time() - self.t0), *a, flush=True)
@@ -309,7 +313,7 @@ def run_prog(cmd, infile, timeout=3600, env=None):
             return -999, so, 'timeout'
 
 
-def run_cases(ctx, cmd, cases, tag, timeout=3600, max_crashes=20):
+def run_cases(ctx, cmd, cases, tag, timeout=300, max_crashes=20):
     """Run all cases through cmd (stdin protocol). A crash loses the rest: the crashed case gets the single line
     'crash:<kind>' appended and the run resumes after it.  Returns dict idx -> lines, dict idx-> tags, crash list."""
     results, tags, crashes = {}, {}, []
@@ -369,7 +373,7 @@ def diff_results(cases, a, b):
     return d
 
 
-def run_one(ctx, cmd, case, tag='one', timeout=600):
+def run_one(ctx, cmd, case, tag='one', timeout=60):
     r, _, cr = run_cases(ctx, cmd, [case], tag, timeout, max_crashes=1)
     return r.get(0, ['<missing>'])
 
@@ -398,7 +402,7 @@ def shrink_case(case, still_fails, keep_prefix=0, budget=150):
 
 # ---------------------------------------------------------------------------------------------------- correspondence
 def correspondence(ctx, name, impl_cmd, model_cmd, cases, nontrivial=None, keep_prefix=0, classify=None,
-                   canon=None, timeout=3600, shrink=True, max_report=3, oracle=None, valid=None):
+                   canon=None, timeout=300, shrink=True, max_report=3, oracle=None, valid=None):
     """Run the same cases through the real code (impl_cmd) and the Lean model (model_cmd); diff; report.
     classify(case, impl_lines, model_lines) -> (known-finding id, text) or None.
     oracle(case, impl_lines) -> None if the property itself holds on what the real code answered, else a string.
@@ -503,6 +507,22 @@ def correspondence(ctx, name, impl_cmd, model_cmd, cases, nontrivial=None, keep_
     ctx.streams.append(st)
     ctx.log('stream %-28s cases=%d ops=%d obs=%d diffs=%d crashes=%d  %.1fs' % (name, st['cases'], st['ops'], st['obs_lines'], st['diffs'], st['impl_crashes'], st['wall_s']))
     return impl, model, diffs
+
+
+def run_known_witnesses(ctx, streams, model_cmd, oracle=None):
+    """Known findings are identified by exact witness histories (known_findings.json).  Each witness is replayed on the
+    streams it names; if the real code still differs from the model (or fails the oracle) on it, a KNOWN-FINDING line is
+    printed.  Witness histories are never generated by the random streams, so nothing else is attributed to a finding."""
+    n = 0
+    for k in ctx.known:
+        for w in k.get('witnesses', []):
+            for name, cmd in streams.items():
+                if w.get('stream') and w['stream'] not in name: continue
+                a = run_one(ctx, cmd, w['ops'], 'kf_i'); b = run_one(ctx, model_cmd, w['ops'], 'kf_m')
+                bad = (a != b) or (oracle is not None and bool(oracle(w['ops'], a)))
+                n += 1
+                if bad: ctx.known_finding(k['id'], k['what'] + ' [witness on stream %s: %s]' % (name, '; '.join(w['ops'])))
+    ctx.extra['known_witnesses_replayed'] = n
 
 
 # ---------------------------------------------------------------------------------------------------------- evidence
